@@ -355,6 +355,46 @@ def cases(ctx):
             if nocmd(res["latex"]) != nocmd(res["latex2"]):
                 return {"what": "-l differs from -of latex"}
             return None
+        def fmt_matrix():
+            """output options select the variant and nothing else: the text written by the tool equals the library's
+            to_file with the corresponding arguments (the 'command line' header entry aside)"""
+            import cnfgen as _c
+
+            def nocmd(t):
+                # the tool adds the command line to the header and (LaTeX) an extra, possibly empty, description block
+                return "\n".join(l for l in t.split("\n") if "command line" not in l and l.strip())
+            for fam_argv, lib in ((["php", "3", "2"], lambda: _c.PigeonholePrinciple(3, 2)),
+                                  (["op", "3"], lambda: _c.OrderingPrinciple(3))):
+                for fmt, fopts in (("dimacs", []), ("dimacs", ["-of", "dimacs"]), ("opb", ["-of", "opb"]),
+                                   ("latex", ["-of", "latex"]), ("latex", ["-l"])):
+                    for q in ([], ["-q"], ["-v"]):
+                        for vn in ([], ["--varnames"]):
+                            p = os.path.join(tmp, "m.out")
+                            argv = ["cnfgen", "-o", p] + fopts + q + vn + fam_argv
+                            quiet(lambda: cli_cnfgen(argv, mode="output"))
+                            got = open(p).read()
+                            F = lib()
+                            buf = io.StringIO()
+                            F.to_file(buf, fileformat=fmt, export_header=("-q" not in q), export_varnames=bool(vn))
+                            if nocmd(got) != nocmd(buf.getvalue()):
+                                g, w = nocmd(got).split("\n"), nocmd(buf.getvalue()).split("\n")
+                                diff = [(a, b) for a, b in zip(g + [""] * len(w), w + [""] * len(g)) if a != b][:2]
+                                return {"what": "output options do not select exactly the library variant",
+                                        "argv": argv[3:], "first_differences": diff}
+                # by file extension
+                for ext, fmt in ((".opb", "opb"), (".tex", "latex"), (".cnf", "dimacs")):
+                    p = os.path.join(tmp, "m" + ext)
+                    quiet(lambda: cli_cnfgen(["cnfgen", "-o", p, "--varnames"] + fam_argv, mode="output"))
+                    F = lib()
+                    buf = io.StringIO()
+                    F.to_file(buf, fileformat=fmt, export_header=True, export_varnames=True)
+                    if nocmd(open(p).read()) != nocmd(buf.getvalue()):
+                        return {"what": "format chosen by extension differs from the library's", "ext": ext}
+            return None
+        fmt_matrix_res = fmt_matrix()
+        fullm = ["cnfgen", "--varnames", "-of", "opb", "php", "3", "2"]
+        out.append(Case("format_matrix", split_req(fullm), lambda fullm=fullm: split_impl(fullm),
+                        lambda r=fmt_matrix_res: r, cls="format", info={"argv": fullm}))
         fmt_res = fmt_oracle()
         full = ["cnfgen", "-q", "php", "3", "2"]
         out.append(Case("format", split_req(full), lambda full=full: split_impl(full), lambda r=fmt_res: r, cls="format",
